@@ -299,8 +299,19 @@ class CertFam(Family):
         for _ in range(rng.randrange(6, 16)):
             rng.shuffle(ids)
             use = ids[:max(1, min(n, rng.choice([1, 1, 2, q, q])))]
-            kind = rng.choice(["single", "single", "qc", "batch", "tc"])
-            if kind == "single":
+            kind = rng.choice(["single", "single", "qc", "batch", "tc", "digest-clash"])
+            if kind == "digest-clash":
+                # a signature over the very bytes the cache hashes for the one-entry batch {i: m} (id, length, m),
+                # remembered as valid for that MESSAGE, is not a signature over the batch
+                i = use[0]
+                m = rng.choice(["blk:B1", "blk:B2", "view:3", "raw:u"])
+                a = nm("e")
+                L.append(f"sign {i} enc:{i}:{m} {a}")
+                L.append(f"verify {v} {a} enc:{i}:{m}")                  # warm (message kind)
+                L.append(f"batch-verify {v} {a} {i}={m}")                # same digest, other kind
+                L.append(f"batch-verify {v} {a} {i}=enc:{i}:{m}")
+                L.append(f"verify {v} {a} {m}")
+            elif kind == "single":
                 i = use[0]
                 L.append(f"verify {v} p{i} blk:B1")                      # warm
                 a = nm("x")
